@@ -253,6 +253,10 @@ func (r *Report) finish(verifDir string) int {
 	if len(samples) == 0 {
 		cov["samples"] = []string{"no obligations generated"}
 	}
+	if r.Assumptions == nil {
+		r.Assumptions = []string{}
+	}
+	r.Assumptions = append(r.Assumptions, "the repo is built without cgo/unsafe tricks; reflection and library internals are not modelled")
 	ev := map[string]interface{}{
 		"property_id": r.Prop,
 		"tier":        r.Tier,
